@@ -385,6 +385,93 @@ func registerModels(P *Program) {
 			return smt.False, true
 		}
 	}
+	// sort.Slice / sort.SliceStable: insertion sort driven by the caller's less function (a stable order,
+	// which is one of the orders sort.Slice may produce)
+	sortModel := func(ex *Exec, fn *ssa.Function, args []Value) (Value, bool) {
+		i0, ok := args[0].(Iface)
+		if !ok {
+			return nil, false
+		}
+		sl, ok := i0.V.(Slice)
+		if !ok {
+			ex.unsupported("sort.Slice of %T", i0.V)
+		}
+		less := args[1]
+		for i := 1; i < sl.Len; i++ {
+			for j := i; j > 0; j-- {
+				r := ex.callValue(less, []Value{smt.I64(int64(j)), smt.I64(int64(j - 1))})
+				if !ex.branch(term(r)) {
+					break
+				}
+				a, b := sl.A.E[sl.Off+j], sl.A.E[sl.Off+j-1]
+				va, vb := ex.load(a), ex.load(b)
+				ex.store(a, vb)
+				ex.store(b, va)
+			}
+		}
+		return nil, true
+	}
+	m["sort.Slice"] = sortModel
+	m["sort.SliceStable"] = sortModel
+	// sync.Map: an association list in the opaque zero value; keys are compared with == (symbolic keys fork)
+	type smEntry struct{ k, v Value }
+	smOf := func(ex *Exec, v Value) *[]smEntry {
+		p, ok := v.(Pointer)
+		if !ok || p.C == nil {
+			ex.goPanic("nil pointer dereference (sync.Map)")
+		}
+		o, ok := p.C.V.(*Opaque)
+		if !ok {
+			ex.unsupported("sync.Map stored as %T", p.C.V)
+		}
+		if o.Data == nil {
+			o.Data = &[]smEntry{}
+		}
+		return o.Data.(*[]smEntry)
+	}
+	smFind := func(ex *Exec, es *[]smEntry, k Value) int {
+		for i, e := range *es {
+			if ex.branch(ex.valEq(e.k, k)) {
+				return i
+			}
+		}
+		return -1
+	}
+	m["(*sync.Map).LoadOrStore"] = func(ex *Exec, fn *ssa.Function, args []Value) (Value, bool) {
+		ex.yieldPoint(nil, nil)
+		es := smOf(ex, args[0])
+		if i := smFind(ex, es, args[1]); i >= 0 {
+			return Tuple{(*es)[i].v, smt.True}, true
+		}
+		*es = append(*es, smEntry{args[1], args[2]})
+		return Tuple{args[2], smt.False}, true
+	}
+	m["(*sync.Map).Load"] = func(ex *Exec, fn *ssa.Function, args []Value) (Value, bool) {
+		ex.yieldPoint(nil, nil)
+		es := smOf(ex, args[0])
+		if i := smFind(ex, es, args[1]); i >= 0 {
+			return Tuple{(*es)[i].v, smt.True}, true
+		}
+		return Tuple{Iface{}, smt.False}, true
+	}
+	m["(*sync.Map).Store"] = func(ex *Exec, fn *ssa.Function, args []Value) (Value, bool) {
+		ex.yieldPoint(nil, nil)
+		es := smOf(ex, args[0])
+		if i := smFind(ex, es, args[1]); i >= 0 {
+			(*es)[i].v = args[2]
+			return nil, true
+		}
+		*es = append(*es, smEntry{args[1], args[2]})
+		return nil, true
+	}
+	m["(*sync.Map).Delete"] = func(ex *Exec, fn *ssa.Function, args []Value) (Value, bool) {
+		ex.yieldPoint(nil, nil)
+		es := smOf(ex, args[0])
+		if i := smFind(ex, es, args[1]); i >= 0 {
+			*es = append((*es)[:i], (*es)[i+1:]...)
+		}
+		return nil, true
+	}
 	// sync primitives (state kept in the opaque zero value of the object)
 	syncObj := func(ex *Exec, v Value) *Opaque {
 		p, ok := v.(Pointer)
